@@ -184,7 +184,14 @@ func checkIPAllowed(c *Ctx) {
 				contains = true
 			}
 		}
-		ok := (okm && must == "F") || contains
+		empty := false
+		for k, v := range ex.Cube {
+			// the same test spelled on the list itself: len(CIDRsAllowed) >= 1 is false
+			if u := untok(k); strings.HasPrefix(u, "len(") && strings.HasSuffix(u, ".CIDRsAllowed)>=1") && v == "F" {
+				empty = true
+			}
+		}
+		ok := (okm && must == "F") || empty || contains
 		c.Check("C18/predicate/nil-only-if-allowed", rule, ex.Pos, ok, "returns nil under {"+gea.CubeString(ex.Cube)+"}")
 	}
 	c.Floor("nil returns of the allow-list predicate", n, 2)
@@ -192,7 +199,7 @@ func checkIPAllowed(c *Ctx) {
 	okRange := false
 	inspectFn(fn, func(nd ast.Node) bool {
 		rs, ok := nd.(*ast.RangeStmt)
-		if !ok || p.FieldOwner(rs.X) != "Config.CIDRsAllowed" {
+		if !ok || !(p.FieldOwner(rs.X) == "Config.CIDRsAllowed" || localCopyOf(p, fn, rs.X, "Config.CIDRsAllowed")) {
 			return true
 		}
 		ast.Inspect(rs.Body, func(m ast.Node) bool {
@@ -215,4 +222,33 @@ func checkIPAllowed(c *Ctx) {
 	})
 	c.Check("C18/predicate/ranges-configured-list", rule, fn.Decl.Pos(), okRange, "the predicate does not test its argument against every configured network")
 	_ = token.NoPos
+}
+
+// localCopyOf: e is a local variable of fn whose only assignment copies the given field.
+func localCopyOf(p *core.Prog, fn *core.Func, e ast.Expr, field string) bool {
+	id, ok := ast.Unparen(e).(*ast.Ident)
+	if !ok {
+		return false
+	}
+	obj := p.Info.Uses[id]
+	if obj == nil {
+		return false
+	}
+	n, good := 0, false
+	ast.Inspect(fn.Decl.Body, func(nd ast.Node) bool {
+		as, ok := nd.(*ast.AssignStmt)
+		if !ok {
+			return true
+		}
+		for i, l := range as.Lhs {
+			if lid, ok := l.(*ast.Ident); ok && p.Info.ObjectOf(lid) == obj {
+				n++
+				if len(as.Lhs) == len(as.Rhs) && p.FieldOwner(as.Rhs[i]) == field {
+					good = true
+				}
+			}
+		}
+		return true
+	})
+	return good && n == 1
 }
